@@ -119,7 +119,9 @@ func anomalies(s *session, kind FKind, a, b run) []string {
 		}
 		return out
 	}
-	if o := a.obs[a.fire]; o != "E:user" && o != "BUDGET" && !strings.HasPrefix(o, "PANIC") {
+	// KPanicOther panics with a value that does not carry the injected text: any error class is right
+	reported := func(o string) bool { return o == "E:user" || (kind == KPanicOther && strings.HasPrefix(o, "E:")) }
+	if o := a.obs[a.fire]; !reported(o) && o != "BUDGET" && !strings.HasPrefix(o, "PANIC") {
 		add("swallowed", a.fire, "outcome "+o+" although failk raised")
 	}
 	prevRest := true
@@ -140,6 +142,9 @@ func anomalies(s *session, kind FKind, a, b run) []string {
 		}
 		if a.obs[i] == "BUDGET" || b.obs[i] == "BUDGET" {
 			return out // out of steps (the failure kinds use different numbers of steps): inconclusive from here on
+		}
+		if i == a.fire && kind == KPanicOther && strings.HasPrefix(a.obs[i], "E:") && strings.HasPrefix(b.obs[i], "E:") {
+			continue
 		}
 		if a.obs[i] != b.obs[i] && b.obs[i] != "SKIP" {
 			add("twin", i, "impl "+a.obs[i]+" twin "+b.obs[i]+" src "+esc(s.Texts[i].Src))
